@@ -58,7 +58,7 @@ theorem diskFields_full (a b name : Bytes) (s : Io11) (ext : List Nat)
   have e4 : (B 1).hi = some 14 := rfl
   simp only [e1, e2, e3, e4, singlesEnv, Res.bind, sliceOf, Io11.cols, List.getElem?_cons_succ,
     List.getElem?_cons_zero, List.drop_succ_cons, List.drop_zero, List.cons_append, List.nil_append,
-    List.map_cons, List.take_succ_cons, List.take_zero, Nat.reduceSub, ints, parseDec_renderDec,
+    List.map_cons, List.take_succ_cons, List.take_zero, Nat.reduceSub, ints, intTok_renderDec,
     values_full]
   rfl
 
@@ -74,7 +74,7 @@ theorem diskFields_part (a b name : Bytes) (r sr w sw : Nat) :
   have e4 : (B 2).hi = none := rfl
   simp only [e1, e2, e3, e4, singlesEnv, Res.bind, sliceOf, List.getElem?_cons_succ,
     List.getElem?_cons_zero, List.drop_succ_cons, List.drop_zero, List.map_cons, List.map_nil,
-    ints, parseDec_renderDec, values_part]
+    ints, intTok_renderDec, values_part]
   rfl
 
 theorem diskFields_old24 (a b name : Bytes) (s : Io11) (last : Nat) :
@@ -91,7 +91,7 @@ theorem diskFields_old24 (a b name : Bytes) (s : Io11) (last : Nat) :
   simp only [e1, e2, e3, e4, singlesEnv, intAt, Res.bind, sliceOf, Io11.cols, List.getElem?_cons_succ,
     List.getElem?_cons_zero, List.drop_succ_cons, List.drop_zero, List.cons_append, List.nil_append,
     List.map_cons, List.map_nil, List.take_succ_cons, List.take_zero, Nat.reduceSub, ints,
-    parseDec_renderDec, values_old24]
+    intTok_renderDec, values_old24]
   rfl
 
 /-- layouts the kernel (or psutil's test-suite) defines: the 18-field layout may grow -/
@@ -99,11 +99,49 @@ def WFRec : Rec → Prop
   | .full _ ext => ext.length = 0 ∨ 4 ≤ ext.length
   | _ => True
 
+theorem hasUniSpace_renderDiskLine (d : Dev) (hn : hasUniSpace d.name = false) :
+    hasUniSpace (renderDiskLine d) = false := by
+  obtain ⟨maj, min, name, p, st⟩ := d
+  have hm : ∀ c, Odd c → ∀ w n, c ∉ numW w n :=
+    fun c h w n => odd_not_mem_padLeft c w _ h (odd_not_mem_renderDec c n h)
+  cases st with
+  | full s ext =>
+    have e : renderDiskLine ⟨maj, min, name, p, .full s ext⟩
+        = (numW 4 maj ++ 32 :: numW 7 min ++ [32]) ++ (name ++ spaced (s.cols ++ ext)) := by
+      simp [renderDiskLine]
+    rw [e]
+    refine hasUniSpace_line _ _ _ ?_ (fun c h => odd_not_mem_spaced c _ h) hn
+    intro c h
+    simp only [List.mem_append, List.mem_cons, not_or, List.not_mem_nil, or_false]
+    exact ⟨⟨hm c h _ _, h.1, hm c h _ _⟩, h.1⟩
+  | part a b c' e' =>
+    have e : renderDiskLine ⟨maj, min, name, p, .part a b c' e'⟩
+        = (numW 4 maj ++ 32 :: numW 7 min ++ [32]) ++ (name ++ spaced [a, b, c', e']) := by
+      simp [renderDiskLine]
+    rw [e]
+    refine hasUniSpace_line _ _ _ ?_ (fun c h => odd_not_mem_spaced c _ h) hn
+    intro c h
+    simp only [List.mem_append, List.mem_cons, not_or, List.not_mem_nil, or_false]
+    exact ⟨⟨hm c h _ _, h.1, hm c h _ _⟩, h.1⟩
+  | old24 s last =>
+    have e : renderDiskLine ⟨maj, min, name, p, .old24 s last⟩
+        = (numW 4 maj ++ 32 :: numW 7 min ++ spaced [s.reads] ++ [32])
+          ++ (name ++ spaced (s.cols.drop 1 ++ [last])) := by
+      simp [renderDiskLine]
+    rw [e]
+    refine hasUniSpace_line _ _ _ ?_ (fun c h => odd_not_mem_spaced c _ h) hn
+    intro c h
+    simp only [List.mem_append, List.mem_cons, not_or, List.not_mem_nil, or_false]
+    exact ⟨⟨⟨hm c h _ _, h.1, hm c h _ _⟩, odd_not_mem_spaced c _ h⟩, h.1⟩
+
 /-- **per line**: every documented layout parses to the documented values -/
 theorem diskLine_render (d : Dev) (hn : WFDisk d.name) (hr : WFRec d.stat) :
     diskLine diskCfg (renderDiskLine d) = .ok (d.name, vals9 d.stat) := by
   obtain ⟨maj, min, name, p, st⟩ := d
+  have hu := hasUniSpace_renderDiskLine ⟨maj, min, name, p, st⟩ hn.noUni
   unfold diskLine
+  rw [hu]
+  simp only [Bool.false_eq_true, if_false]
   cases st with
   | full s ext => rw [fields_full maj min name p s ext hn]; exact diskFields_full _ _ _ s ext hr
   | part a b c e => rw [fields_part maj min name p a b c e hn]; exact diskFields_part _ _ _ a b c e
@@ -245,16 +283,19 @@ theorem diskPlatform_render (devs : List Dev) (wf : DiskWF devs) (per : Bool) :
 
 /-! ### sums -/
 
-theorem foldl_add9 {α : Type} (f0 f1 f2 f3 f4 f5 f6 f7 f8 : α → Nat) (xs : List α)
-    (a0 a1 a2 a3 a4 a5 a6 a7 a8 : Nat) :
-    (xs.map fun x => [f0 x, f1 x, f2 x, f3 x, f4 x, f5 x, f6 x, f7 x, f8 x]).foldl
-        (fun acc x => List.zipWith (· + ·) acc x) [a0, a1, a2, a3, a4, a5, a6, a7, a8]
-      = [a0 + (xs.map f0).sum, a1 + (xs.map f1).sum, a2 + (xs.map f2).sum, a3 + (xs.map f3).sum,
-         a4 + (xs.map f4).sum, a5 + (xs.map f5).sum, a6 + (xs.map f6).sum, a7 + (xs.map f7).sum,
-         a8 + (xs.map f8).sum] := by
-  induction xs generalizing a0 a1 a2 a3 a4 a5 a6 a7 a8 with
-  | nil => simp
-  | cons x r ih => simp [ih, Nat.add_assoc]
+/-- `zip(*rows)` of rows with the same nine cells: the nine columns -/
+theorem zipStar_cols9 {α : Type} (f0 f1 f2 f3 f4 f5 f6 f7 f8 : α → Nat) (x : α) (xs : List α) :
+    zipStar ((x :: xs).map fun x => [f0 x, f1 x, f2 x, f3 x, f4 x, f5 x, f6 x, f7 x, f8 x])
+      = [(x :: xs).map f0, (x :: xs).map f1, (x :: xs).map f2, (x :: xs).map f3, (x :: xs).map f4,
+         (x :: xs).map f5, (x :: xs).map f6, (x :: xs).map f7, (x :: xs).map f8] := by
+  induction xs generalizing x with
+  | nil => simp [zipStar]
+  | cons y r ih =>
+    have := ih y
+    simp only [List.map_cons] at this ⊢
+    rw [zipStar, this]
+    · simp
+    · simp
 
 /-- documented field `k` of one record -/
 def fld (k : String) (r : Rec) : Nat := ((documented9 r).lookup k).getD 0
@@ -265,18 +306,20 @@ theorem vals9_eq (r : Rec) :
                fld "write_merged_count" r, fld "busy_time" r] := by
   cases r <;> rfl
 
-theorem sumCols_vals9 (d : Dev) (r : List Dev) :
-    sumCols ((d :: r).map fun d => vals9 d.stat)
-      = diskFieldNames.map fun k => (((d :: r).map fun d => fld k d.stat).sum) := by
+/-- the system-wide branch of `psutil.disk_io_counters` as extracted: one sum per column -/
+theorem aggregate_vals9 (d : Dev) (r : List Dev) :
+    aggregate diskAgg ((d :: r).map fun d => vals9 d.stat)
+      = some (diskFieldNames.map fun k => (((d :: r).map fun d => fld k d.stat).sum)) := by
   have hfun : (fun d : Dev => vals9 d.stat) = fun d : Dev =>
       [fld "read_count" d.stat, fld "write_count" d.stat, fld "read_bytes" d.stat,
        fld "write_bytes" d.stat, fld "read_time" d.stat, fld "write_time" d.stat,
        fld "read_merged_count" d.stat, fld "write_merged_count" d.stat, fld "busy_time" d.stat] := by
     funext d; exact vals9_eq d.stat
-  rw [hfun]
-  simp only [List.map_cons, sumCols]
-  rw [foldl_add9]
-  simp [diskFieldNames]
+  have hs : diskAgg.source = "zip(*rawdict.values())" := by decide
+  have hr : diskAgg.reducer = "sum" := by decide
+  unfold aggregate
+  rw [if_pos hs, hfun, zipStar_cols9, hr]
+  simp [reduceCols, reduceCol, diskFieldNames]
 
 theorem sumFields_documented9 (ds : List Dev) :
     sumFields diskFieldNames (ds.map fun d => documented9 d.stat)
